@@ -1283,6 +1283,11 @@ func (ctx *RenderContext) getAttribute(obj interface{}, attr string) (interface{
 		objValue = objValue.Elem()
 	}
 
+	// Maps of any other type: the attribute names a key, as it does for x['name']
+	if objValue.Kind() == reflect.Map {
+		return ctx.getItem(objValue.Interface(), attr)
+	}
+
 	// Only use caching for struct types
 	if objValue.Kind() != reflect.Struct {
 		// Instead of returning an error for non-struct types, return nil
